@@ -6,6 +6,7 @@ P: Message_Router.produce (request and reply form): count N, offset table 2+2N+s
    Message_Router.request calls the target's request exactly once per member, in list order.
 B: bundles vs singles on the real router.
 """
+from .util import distinct_keys
 import ast
 import random
 
@@ -460,7 +461,7 @@ def bounded(tier, seed):
     def viol(key, obs, req):
         violations.append(dict(key=key, observed=str(obs)[:400], required=req))
     ev += C12.route_mix(rng, {'A': ('INT', 10), 'B': ('DINT', 6), 'S': ('SINT', 4)}, 3 if tier == 'quick' else 15, viol, distinct)
-    return dict(evaluations=ev, distinct_nontrivial=len(distinct),
+    return dict(evaluations=ev, distinct_nontrivial=len(distinct), distinct_keys=distinct_keys(distinct),
                 rule='bundles of 0..4 members drawn from a pool of %d Read/Write Tag [Fragmented] requests (valid, out of range, unknown tag, '
                      'wrong type) on two INT tags with MAX_BYTES=6: (a) produced bundle bytes vs the layout table with the members encoded singly, '
                      '(b) member replies (status, ext status, type, data, bytes) and final tag state vs the same requests issued singly from the '
